@@ -175,6 +175,20 @@ func joinSorted(xs []string) string {
 	return strings.Join(c, "\x00")
 }
 
+// the closed file-type enumeration of SPDX 2.3 (§8.3)
+var spdxFileTypes = map[string]bool{"SOURCE": true, "BINARY": true, "ARCHIVE": true, "APPLICATION": true, "AUDIO": true, "IMAGE": true, "TEXT": true,
+	"VIDEO": true, "DOCUMENTATION": true, "SPDX": true, "OTHER": true}
+
+func filterStrings(in []string, keep func(string) bool) []string {
+	out := []string{}
+	for _, s := range in {
+		if keep(s) {
+			out = append(out, s)
+		}
+	}
+	return out
+}
+
 // spdxProj projects a node. wildcard: a non-native first purpose may come back as any native value or absent.
 func spdxProj(n *sbom.Node, wildcard bool) proj {
 	p := proj{}
@@ -185,17 +199,19 @@ func spdxProj(n *sbom.Node, wildcard bool) proj {
 	p["copyright"] = normNone(strings.TrimSpace(n.Copyright))
 	p["comment"] = n.Comment
 	hs := []string{}
+	// entries SPDX cannot carry are left out on both sides: a checksum, identifier or attribution text without
+	// content (the value is mandatory in SPDX), a file type outside the closed SPDX enumeration
 	for a, v := range n.Hashes {
-		if spdxAlgos[a] {
+		if spdxAlgos[a] && v != "" {
 			hs = append(hs, fmt.Sprintf("%d=%s", a, v))
 		}
 	}
 	p["hashes"] = joinSorted(hs)
 	if n.Type == sbom.Node_FILE {
-		p["file_types"] = joinSorted(n.FileTypes)
+		p["file_types"] = joinSorted(filterStrings(n.FileTypes, func(s string) bool { return spdxFileTypes[s] }))
 		return p
 	}
-	p["attribution"] = joinSorted(n.Attribution)
+	p["attribution"] = joinSorted(filterStrings(n.Attribution, func(s string) bool { return s != "" }))
 	p["version"] = n.Version
 	p["file_name"] = n.FileName
 	p["url_home"] = n.UrlHome
@@ -205,7 +221,7 @@ func spdxProj(n *sbom.Node, wildcard bool) proj {
 	p["description"] = n.Description
 	ids := []string{}
 	for k, v := range n.Identifiers {
-		if k >= 1 && k <= 4 {
+		if k >= 1 && k <= 4 && v != "" {
 			ids = append(ids, fmt.Sprintf("%d=%s", k, v))
 		}
 	}
